@@ -4,6 +4,7 @@ import vlib
 CFG = '''SPECIFICATION Spec
 CONSTANTS Conn = %(conn)s MaxAcks = %(acks)d Threshold = %(thr)d MaxSendFails = %(sf)d
   AllowStoreFaults = %(faults)s SetErrShadowed = %(shadow)s BeginFailSilent = %(silent)s AllowTeardown = %(td)s
+  ErrsGuarded = %(guard)s AllowNodeExit = %(nodeexit)s
 INVARIANTS AckAfterDurable DeliveredInOrder NoLostCallback
 PROPERTY StoreMonotone
 %(live)s
@@ -11,10 +12,12 @@ CHECK_DEADLOCK FALSE
 '''
 
 
-def cfg(conn='{"a","b"}', acks=2, thr=2, sf=1, faults=True, shadow=False, silent=False, td=True, live=False):
+def cfg(conn='{"a","b"}', acks=2, thr=2, sf=1, faults=True, shadow=False, silent=False, td=True, live=False,
+        guard=True, nodeexit=False, returns=False):
     b = lambda x: "TRUE" if x else "FALSE"
     return CFG % {"conn": conn, "acks": acks, "thr": thr, "sf": sf, "faults": b(faults), "shadow": b(shadow),
-                  "silent": b(silent), "td": b(td), "live": "PROPERTY EventuallyDelivered" if live else ""}
+                  "silent": b(silent), "td": b(td), "guard": b(guard), "nodeexit": b(nodeexit),
+                  "live": ("PROPERTY EventuallyDelivered" if live else "") + ("\nPROPERTY CallbacksReturn" if returns else "")}
 
 
 def run_design(chk, quick):
@@ -32,6 +35,17 @@ def run_design(chk, quick):
         raise vlib.Infra("SourcePersist: shadowed Set error should violate AckAfterDurable, got %r %r" %
                          (r["violated"], r["error"]))
     chk.add_design(r, "SourcePersist with SetErrShadowed (pre-fix behaviour): TLC refutes AckAfterDurable (sanity)")
+    # the error-channel send: with the guarded send every callback returns although nodes exit at any time; with the
+    # plain send of the code TLC finds the callback that blocks for good (observation O1 in DESIGN.md)
+    r = vlib.tlc_design("SourcePersist", cfg(conn='{"a"}', acks=2, sf=0, td=False, guard=True, nodeexit=True, returns=True), files,
+                        name="SourcePersist-errs-guarded", timeout=900)
+    chk.add_design(r, "SourcePersist, nodes exit at any time, guarded error send: every flush callback returns")
+    r = vlib.tlc_run("SourcePersist", cfg(conn='{"a"}', acks=2, sf=0, td=False, guard=False, nodeexit=True, returns=True), files,
+                     name="SourcePersist-errs-plain", timeout=900)
+    if r["error"] or r["violated"] != "CallbacksReturn":
+        raise vlib.Infra("SourcePersist: the plain error send should refute CallbacksReturn, got %r %r" % (r["violated"], r["error"]))
+    chk.add_design(r, "SourcePersist with the code's plain error send: TLC refutes CallbacksReturn (observation O1: a failed "
+                      "flush whose error nobody reads blocks Persister.Wait for good) - recorded, outside the listed properties")
     if not quick:
         r = vlib.tlc_design("SourcePersist", cfg(acks=3), files, name="SourcePersist-2x3", timeout=3000, heap_gb=16)
         chk.add_design(r, "SourcePersist: 2 connectors x 3 acks (thorough)")
